@@ -11,15 +11,17 @@ import Proofs.Lemmas.HierGraph
 
 All theorems quantify over every class table `G` (hypotheses: the extends chain has no cycle; declared
 `Exception`/`Error` classes are `Throwable` — both C08 notions), every program of `Model.Exc` (arbitrary nesting and
-length: the semantics is structurally recursive, there is no fuel), every starting trace and every value of the
-enclosing catch variable. `cfg.guarded = true` / `Cfg.fixed` is the tree with the C05 fixes; the pinned behaviour is
+length, any number of named functions that call themselves and each other to any depth: the semantics is structurally
+recursive on the syntax and on the level, there is no fuel), every starting trace, every value of the enclosing catch
+variable and every activation `A` — its level and *whatever its callees do* (`A.env` is universally quantified in the
+statement-level theorems). `cfg.guarded = true` / `Cfg.fixed` is the tree with the C05 fixes; the pinned behaviour is
 kept as `Cfg.pinned` with proved negation witnesses.
 -/
 namespace C05
 open Model.Exc
 open Model.Hier (Name Cls Graph getClass)
 open Spec.Hier (NoCycle csucc)
-open Spec.Exc (Rules TypeOk ClauseOk FirstMatch NoMatch ThrowableRooted mentionsB mentionsC goodB proj Alternates)
+open Spec.Exc (Rules TypeOk ClauseOk FirstMatch NoMatch ThrowableRooted mentionsB mentionsC mentionsP goodB goodP proj Alternates)
 open Proofs.Exc
 
 /-! ## first matching catch -/
@@ -34,22 +36,22 @@ rethrow, a converted host panic) at trace `tr₁`:
   goes on to the enclosing `try` (the enclosing statement only ever sees this statement's outcome);
 * one of the two cases always applies. -/
 theorem C05_first_match (G : Graph) (hn : NoCycle (csucc G)) (hroot : ThrowableRooted G) (cfg : Cfg)
-    (hg : cfg.guarded = true) (cur : Option Thrown) (i : Nat) (b : Block) (cs : Catches) (hasFin : Bool) (fin : Block)
-    (tr tr₁ : List Ev) (x : Thrown)
-    (hbody : protect (execB G cfg cur b (tr ++ [.enterTry i])) = (.thr x, tr₁)) :
+    (hg : cfg.guarded = true) (cur : Option Thrown) (A : Act) (i : Nat) (b : Block) (cs : Catches) (hasFin : Bool)
+    (fin : Block) (tr tr₁ : List Ev) (x : Thrown)
+    (hbody : protect (execB G cfg cur A b (tr ++ [.enterTry A.lvl i])) = (.thr x, tr₁)) :
     (∀ k h, FirstMatch G x cs 0 k h →
-        exec G cfg cur (.try_ i b cs hasFin fin) tr =
-          finallyPhase i hasFin (fun t => protect (execB G cfg cur fin t))
-            (protect (execB G cfg (some x) h (tr₁ ++ [.caught i k x])))) ∧
+        exec G cfg cur A (.try_ i b cs hasFin fin) tr =
+          finallyPhase A.lvl i hasFin (fun t => protect (execB G cfg cur A fin t))
+            (protect (execB G cfg (some x) A h (tr₁ ++ [.caught A.lvl i k x])))) ∧
     (NoMatch G x cs →
-        exec G cfg cur (.try_ i b cs hasFin fin) tr =
-          finallyPhase i hasFin (fun t => protect (execB G cfg cur fin t)) (.thr x, tr₁)) ∧
+        exec G cfg cur A (.try_ i b cs hasFin fin) tr =
+          finallyPhase A.lvl i hasFin (fun t => protect (execB G cfg cur A fin t)) (.thr x, tr₁)) ∧
     ((∃ k h, FirstMatch G x cs 0 k h) ∨ NoMatch G x cs) := by
   refine ⟨fun k h hf => ?_, fun hno => ?_, first_or_none G x cs 0⟩
   · simp only [exec, hg, if_true, tryStmt, hbody, catchPhase, tryValue]
-    rw [execC_first G hn hroot cfg i x hf]
+    rw [execC_first G hn hroot cfg A i x hf]
   · simp only [exec, hg, if_true, tryStmt, hbody, catchPhase, tryValue]
-    rw [execC_none G hn hroot cfg i x cs 0 hno]
+    rw [execC_none G hn hroot cfg A i x cs 0 hno]
     rfl
 
 /-- `catchTypeMatches` decides exactly "one of the clause's types is the object's class, an ancestor or an
@@ -61,11 +63,11 @@ theorem C05_clause_test (G : Graph) (hn : NoCycle (csucc G)) (hroot : ThrowableR
 /-- **Innermost first.** Whatever an inner `try` statement does with an exception, the clauses of the enclosing
 `try` are consulted only about what the inner statement lets out: if the enclosing body ends without a pending
 throwable, no clause of the enclosing `try` runs. -/
-theorem C05_innermost_first (G : Graph) (cfg : Cfg) (hg : cfg.guarded = true) (cur : Option Thrown) (i : Nat)
+theorem C05_innermost_first (G : Graph) (cfg : Cfg) (hg : cfg.guarded = true) (cur : Option Thrown) (A : Act) (i : Nat)
     (b : Block) (cs : Catches) (hasFin : Bool) (fin : Block) (tr tr₁ : List Ev) (o : Out)
-    (hbody : execB G cfg cur b (tr ++ [.enterTry i]) = (o, tr₁)) (hno : ∀ x, o ≠ .thr x) (hnp : o ≠ .panic) :
-    exec G cfg cur (.try_ i b cs hasFin fin) tr =
-      finallyPhase i hasFin (fun t => protect (execB G cfg cur fin t)) (o, tr₁) := by
+    (hbody : execB G cfg cur A b (tr ++ [.enterTry A.lvl i]) = (o, tr₁)) (hno : ∀ x, o ≠ .thr x) (hnp : o ≠ .panic) :
+    exec G cfg cur A (.try_ i b cs hasFin fin) tr =
+      finallyPhase A.lvl i hasFin (fun t => protect (execB G cfg cur A fin t)) (o, tr₁) := by
   simp only [exec, hg, if_true, tryStmt, hbody]
   cases o <;> simp_all [protect, catchPhase, tryValue]
 
@@ -81,36 +83,47 @@ theorem C05_catch_variable_counterexample : ¬ ∀ x, boundValue x = Spec.Exc.bo
 
 /-! ## finally exactly once -/
 
-/-- **Finally exactly once, one statement.** A `try` numbered `i` with a finally block, whose parts contain no other
-`try` numbered `i`: for every content of body, clauses and finally block, every class table, every pending catch
-variable — hence on every exit path: fall-through, return, break, continue, throw (caught here or not), throw from
-a catch body, throw/return/jump from the finally block, host panic anywhere — the statement adds to the events of
-try `i` exactly `enterTry i` followed by `enterFinally i`, before control leaves the statement. -/
-theorem C05_finally_once (G : Graph) (cfg : Cfg) (hg : cfg.guarded = true) (i : Nat) (b : Block) (cs : Catches)
-    (fin : Block) (hb : mentionsB i b = false) (hc : mentionsC i cs = false) (hf : mentionsB i fin = false)
-    (cur : Option Thrown) (tr : List Ev) :
-    ∃ ext, (exec G cfg cur (.try_ i b cs true fin) tr).2 = tr ++ ext ∧
-      proj i ext = [.enterTry i, .enterFinally i] :=
-  try_once G cfg hg i b cs fin hb hc hf cur tr
+/-- **Finally exactly once, one statement, one activation.** A `try` numbered `i` with a finally block, whose parts
+contain no other `try` numbered `i`, executed by the activation of level `n` of any program (named functions `fns`
+that may call themselves and each other from the try block, the catch bodies and the finally block of this very
+statement): for every content of body, clauses and finally block, every class table, every pending catch variable —
+hence on every exit path: fall-through, return, break, continue, throw (caught here or not), throw from a catch body,
+throw/return/jump from the finally block, host panic anywhere, and however many deeper activations enter the same
+statement meanwhile — this execution adds to the events of try `i` *of its own activation* exactly `enterTry`
+followed by `enterFinally`, before control leaves the statement. -/
+theorem C05_finally_once (G : Graph) (cfg : Cfg) (hg : cfg.guarded = true) (fns : List Block) (n : Nat) (i : Nat)
+    (b : Block) (cs : Catches) (fin : Block) (hb : mentionsB i b = false) (hc : mentionsC i cs = false)
+    (hf : mentionsB i fin = false) (cur : Option Thrown) (tr : List Ev) :
+    ∃ ext, (exec G cfg cur (actAt G cfg fns n) (.try_ i b cs true fin) tr).2 = tr ++ ext ∧
+      proj n i ext = [.enterTry n i, .enterFinally n i] :=
+  try_once G cfg hg (actAt G cfg fns n) i b cs fin hb hc hf
+    (envAt_noEv_above G cfg hg fns i n n (Nat.le_refl n)) cur tr
 
 /-- **Finally exactly once, whole runs.** In the trace of any program in which the `try` statements numbered `i` have
-a finally block and are not nested in one another (`goodB`; the number identifies a statement, it may be executed
-many times by loops and calls), the events of try `i` are `enterTry i, enterFinally i, enterTry i, enterFinally i, …`:
-every entry is followed by exactly one run of the finally block before the next entry or the end of the run. -/
-theorem C05_finally_once_run (G : Graph) (cfg : Cfg) (hg : cfg.guarded = true) (i : Nat) (p : Block)
-    (hp : goodB i p = true) : Alternates i (proj i (run G cfg p).2) := by
-  obtain ⟨ext, h1, h2⟩ := execB_alt G cfg hg i p hp none []
+a finally block and are not nested in one another syntactically (`goodP`; the number identifies a statement, it may be
+executed many times by loops, calls and recursion), for every level `L` the events of try `i` in the activations of
+level `L` are `enterTry, enterFinally, enterTry, enterFinally, …`: every entry is followed by exactly one run of the
+finally block by the same activation before the next entry at that level or the end of the run — although the
+activations below `L` that the body, the handlers and the finally block start re-enter the same statement in between. -/
+theorem C05_finally_once_run (G : Graph) (cfg : Cfg) (hg : cfg.guarded = true) (i : Nat) (p : Prog)
+    (hp : goodP i p = true) (L : Nat) : Alternates L i (proj L i (run G cfg p).2) := by
+  simp only [goodP, Bool.and_eq_true, List.all_eq_true] at hp
+  obtain ⟨ext, h1, h2⟩ := execB_alt G cfg hg L i (actAt G cfg p.fns p.depth)
+    (envAt_alt G cfg hg p.fns i hp.2 p.depth L)
+    (fun e => envAt_noEv_above G cfg hg p.fns i p.depth L (by simp [actAt] at e; omega)) p.main hp.1 none []
   simp only [run]
   rw [h1]
-  simpa using h2
+  simpa [Alt] using h2
 
 /-- a `try` that is not mentioned emits nothing: the events of try `i` come from the statements numbered `i` only -/
-theorem C05_no_foreign_events (G : Graph) (cfg : Cfg) (hg : cfg.guarded = true) (i : Nat) (p : Block)
-    (hp : mentionsB i p = false) : proj i (run G cfg p).2 = [] := by
-  obtain ⟨ext, h1, h2⟩ := execB_noEv G cfg hg i p hp none []
+theorem C05_no_foreign_events (G : Graph) (cfg : Cfg) (hg : cfg.guarded = true) (i : Nat) (p : Prog)
+    (hp : mentionsP i p = false) (L : Nat) : proj L i (run G cfg p).2 = [] := by
+  simp only [mentionsP, Bool.or_eq_false_iff, List.any_eq_false, Bool.not_eq_true] at hp
+  obtain ⟨ext, h1, h2⟩ := execB_noEv G cfg hg L i (actAt G cfg p.fns p.depth)
+    (envAt_noEv_unmentioned G cfg hg p.fns i hp.2 p.depth L) p.main (fun _ => hp.1) none []
   simp only [run]
   rw [h1]
-  simpa using h2
+  simpa [NoEv] using h2
 
 /-- the pinned code (one deferred `recover` around the whole statement) skipped the finally block when the body
 panicked at Go level: `try { host_panic(); } catch (Throwable $e) { echo 1; } finally { echo 2; }` -/
@@ -118,51 +131,115 @@ def witnessPanic : Block :=
   .cons (.try_ 1 (.cons .gopanic .nil) (.cons [0] (.cons (.echo 1) .nil) .nil) true (.cons (.echo 2) .nil)) .nil
 
 theorem C05_finally_once_pinned_counterexample :
-    (run ⟨[], []⟩ Cfg.pinned witnessPanic).2 = [.enterTry 1, .caught 1 0 .internal, .echo 1] ∧
-    (run ⟨[], []⟩ Cfg.fixed witnessPanic).2 =
-      [.enterTry 1, .caught 1 0 .internal, .echo 1, .enterFinally 1, .echo 2] := by
+    (run ⟨[], []⟩ Cfg.pinned (.ofBlock witnessPanic)).2 = [.enterTry 0 1, .caught 0 1 0 .internal, .echo 0 1] ∧
+    (run ⟨[], []⟩ Cfg.fixed (.ofBlock witnessPanic)).2 =
+      [.enterTry 0 1, .caught 0 1 0 .internal, .echo 0 1, .enterFinally 0 1, .echo 0 2] := by
   constructor <;> decide
 
-/-! ## what finally does replaces what was pending -/
+/-! ## what finally does replaces what was pending — and nothing else does -/
 
 /-- **Override.** With `r₂` what is pending after the try/catch part (a return value, an exception, a jump, or
 nothing) and `r₃` what the finally block did: if the finally block completes normally the pending outcome is
 resumed, otherwise — `return`, `throw`, `break`, `continue` in finally — `r₃` replaces it. -/
-theorem C05_finally_return_overrides (i : Nat) (runFin : List Ev → Res) (r₂ : Res) :
-    finallyPhase i true runFin r₂ =
-      (let r₃ := runFin (r₂.2 ++ [.enterFinally i])
+theorem C05_finally_return_overrides (a i : Nat) (runFin : List Ev → Res) (r₂ : Res) :
+    finallyPhase a i true runFin r₂ =
+      (let r₃ := runFin (r₂.2 ++ [.enterFinally a i])
        if r₃.1 = .normal then (r₂.1, r₃.2) else r₃) := by
   unfold finallyPhase
   simp only [if_true]
-  generalize runFin (r₂.2 ++ [.enterFinally i]) = r₃
+  generalize runFin (r₂.2 ++ [.enterFinally a i]) = r₃
   rcases r₃ with ⟨o, t⟩
   cases o <;> simp
 
 /-- `function f() { try { return a; } finally { return b; } }` returns `b`; with `throw new K` instead of
 `return a` (and no matching clause) the exception is discarded and `f` returns `b`; for every class table. -/
-theorem C05_finally_return_wins (G : Graph) (cfg : Cfg) (hg : cfg.guarded = true) (cur : Option Thrown) (i a b : Nat)
-    (cls site : Nat) (tr : List Ev) :
-    exec G cfg cur (.call (.cons (.try_ i (.cons (.ret a) .nil) .nil true (.cons (.ret b) .nil)) .nil)) tr =
-      (.normal, tr ++ [.enterTry i] ++ [.enterFinally i] ++ [.result (some b)]) ∧
-    exec G cfg cur (.call (.cons (.try_ i (.cons (.throw cls site) .nil) .nil true (.cons (.ret b) .nil)) .nil)) tr =
-      (.normal, tr ++ [.enterTry i] ++ [.enterFinally i] ++ [.result (some b)]) := by
+theorem C05_finally_return_wins (G : Graph) (cfg : Cfg) (hg : cfg.guarded = true) (cur : Option Thrown) (A : Act)
+    (i a b : Nat) (cls site : Nat) (tr : List Ev) :
+    exec G cfg cur A (.call (.cons (.try_ i (.cons (.ret a) .nil) .nil true (.cons (.ret b) .nil)) .nil)) tr =
+      (.normal, tr ++ [.enterTry A.lvl i] ++ [.enterFinally A.lvl i] ++ [.result (some (tag A.lvl b))]) ∧
+    exec G cfg cur A (.call (.cons (.try_ i (.cons (.throw cls site) .nil) .nil true (.cons (.ret b) .nil)) .nil)) tr =
+      (.normal, tr ++ [.enterTry A.lvl i] ++ [.enterFinally A.lvl i] ++ [.result (some (tag A.lvl b))]) := by
   constructor <;>
     simp [exec, execB, execC, hg, tryStmt, protect, catchPhase, tryValue, finallyPhase, callResult]
 
+/-- **A pending outcome belongs to its activation.** `o` is what the try/catch part of a `try` statement executed by
+activation `A` left pending — a return value, a thrown object (uncaught here, or thrown by a handler), a break, a
+continue, or nothing. If the finally block completes normally, the statement's outcome is `o`, unchanged, whatever
+the finally block did on the way: in particular whatever the functions it called returned or threw and caught —
+`A.env` is arbitrary — including deeper activations of the enclosing function executing this same `return` / `throw`
+/ `break` / `continue` statement. Only a control that leaves the finally block itself replaces `o`
+(`C05_finally_return_overrides`). -/
+theorem C05_pending_outcome_kept (G : Graph) (cfg : Cfg) (hg : cfg.guarded = true) (cur : Option Thrown) (A : Act)
+    (i : Nat) (b : Block) (cs : Catches) (fin : Block) (tr tr₂ tr₃ : List Ev) (o : Out)
+    (hpending : catchPhase (fun r => protect (tryValue (fun x t => execC G cfg A i 0 x cs t) r))
+        (protect (execB G cfg cur A b (tr ++ [.enterTry A.lvl i]))) = (o, tr₂))
+    (hfin : protect (execB G cfg cur A fin (tr₂ ++ [.enterFinally A.lvl i])) = (.normal, tr₃)) :
+    exec G cfg cur A (.try_ i b cs true fin) tr = (o, tr₃) := by
+  simp only [exec, hg, if_true, tryStmt, hpending, finallyPhase, hfin]
+
+/-- the same seen from the caller: `function g($n) { try { return v; } finally { … } }` — if the finally block
+completes normally the call yields the value of *this* activation's `return` (`$n * 1000 + v` with this activation's
+`$n`), whatever the activations started by the finally block returned -/
+theorem C05_return_survives_finally (G : Graph) (cfg : Cfg) (hg : cfg.guarded = true) (A : Act) (i v : Nat)
+    (fin : Block) (tr tr₃ : List Ev)
+    (hfin : protect (execB G cfg none A fin (tr ++ [.enterTry A.lvl i] ++ [.enterFinally A.lvl i])) = (.normal, tr₃)) :
+    callResult (execB G cfg none A (.cons (.try_ i (.cons (.ret v) .nil) .nil true fin) .nil) tr) =
+      (.normal, tr₃ ++ [.result (some (tag A.lvl v))]) := by
+  have h := C05_pending_outcome_kept G cfg hg none A i (.cons (.ret v) .nil) .nil fin tr
+    (tr ++ [.enterTry A.lvl i]) tr₃ (.ret (tag A.lvl v))
+    (by simp [exec, execB, protect, catchPhase, tryValue]) hfin
+  simp only [execB, h, callResult]
+
+/-- `function walk($n) { try { return $n*1000+v; } finally { if ($n > 0) { $r = walk($n - 1); echo $r; } } }` -/
+def walk (v : Nat) : Block :=
+  .cons (.try_ 1 (.cons (.ret v) .nil) .nil true (.cons (.callf 0) .nil)) .nil
+
+/-- one activation of `walk`, whatever level, provided the call it makes (if any) comes back with a `return` -/
+theorem C05_reentrant_return_step (G : Graph) (cfg : Cfg) (hg : cfg.guarded = true) (v : Nat) (A : Act)
+    (hcallee : A.lvl ≠ 0 → ∀ t, ∃ w t', A.env 0 t = (.ret w, t')) (tr : List Ev) :
+    ∃ t', execB G cfg none A (walk v) tr = (.ret (tag A.lvl v), t') := by
+  have hfin : ∀ t, ∃ t', protect (execB G cfg none A (.cons (.callf 0) .nil) t) = (.normal, t') := by
+    intro t
+    by_cases h0 : A.lvl = 0
+    · exact ⟨t, by simp [execB, exec, callNamed, h0, protect]⟩
+    · obtain ⟨w, t', hr⟩ := hcallee h0 t
+      exact ⟨t' ++ [.result (some w)], by simp [execB, exec, callNamed, h0, hr, callResult, protect]⟩
+  obtain ⟨t', ht'⟩ := hfin (tr ++ [.enterTry A.lvl 1] ++ [.enterFinally A.lvl 1])
+  have h := C05_pending_outcome_kept G cfg hg none A 1 (.cons (.ret v) .nil) .nil
+    (.cons (.callf 0) .nil) tr (tr ++ [.enterTry A.lvl 1]) t' (.ret (tag A.lvl v))
+    (by simp [exec, execB, protect, catchPhase, tryValue]) ht'
+  exact ⟨t', by simp only [walk, execB, h]⟩
+
+/-- **Re-entrant return, every depth.** Each activation of `walk` returns its own value although its finally block
+runs the whole rest of the recursion — the same `return` statement executed `n` more times — while that value is
+pending: `walk(n)` returns `n * 1000 + v` for every `n`. -/
+theorem C05_reentrant_return (G : Graph) (cfg : Cfg) (hg : cfg.guarded = true) (v : Nat) :
+    ∀ (n : Nat) (tr : List Ev), ∃ t', envAt G cfg [walk v] (n+1) 0 tr = (.ret (tag n v), t')
+  | 0, tr => by
+    rw [envAt]
+    exact C05_reentrant_return_step G cfg hg v ⟨0, envAt G cfg [walk v] 0⟩ (fun h => absurd rfl h) tr
+  | n+1, tr => by
+    rw [envAt]
+    exact C05_reentrant_return_step G cfg hg v ⟨n+1, envAt G cfg [walk v] (n+1)⟩
+      (fun _ t => ⟨tag n v, C05_reentrant_return G cfg hg v n t⟩) tr
+
 /-! ## refinement -/
 
-/-- **The model is PHP.** For every program, the repaired interpreter model and the specification (`Spec.Exc`: first
-clause in source order by the declared hierarchy, handler bound to the same object, finally once, finally's own
-control replaces what was pending, `throw $e` rethrows the same object, a host failure inside `try` is a class-less
-throwable) produce the same trace and end the same way — for any rule set `R` that decides the hierarchy. -/
+/-- **The model is PHP.** For every program — any named functions, any depth of recursion — the repaired interpreter
+model and the specification (`Spec.Exc`: first clause in source order by the declared hierarchy, handler bound to the
+same object, finally once, finally's own control replaces what was pending, `throw $e` rethrows the same object, a host
+failure inside `try` is a class-less throwable, a call is a new activation) produce the same trace and end the same
+way — for any rule set `R` that decides the hierarchy. -/
 theorem C05_refines (G : Graph) (hn : NoCycle (csucc G)) (hroot : ThrowableRooted G) (R : Rules) (hR : R.Decides G)
-    (p : Block) : run G Cfg.fixed p = Spec.Exc.run R p := by
-  simp only [run, Spec.Exc.run, execB_refines G hn hroot R hR p none []]
+    (p : Prog) : run G Cfg.fixed p = Spec.Exc.run R p := by
+  simp only [run, Spec.Exc.run, actAt, envAt_refines G hn hroot R hR p.fns p.depth,
+    execB_refines G hn hroot R hR _ p.main none []]
 
-/-- the same for one statement in any context -/
+/-- the same for one statement in any context and any activation -/
 theorem C05_refines_stmt (G : Graph) (hn : NoCycle (csucc G)) (hroot : ThrowableRooted G) (R : Rules) (hR : R.Decides G)
-    (s : Stmt) (cur : Option Thrown) (tr : List Ev) : exec G Cfg.fixed cur s tr = Spec.Exc.exec R cur s tr :=
-  exec_refines G hn hroot R hR s cur tr
+    (s : Stmt) (cur : Option Thrown) (A : Act) (tr : List Ev) :
+    exec G Cfg.fixed cur A s tr = Spec.Exc.exec R cur A s tr :=
+  exec_refines G hn hroot R hR A s cur tr
 
 /-- the pinned `throw $e` threw a class-less copy: the outer `catch (K4)` misses it, `catch (Exception)` gets it -/
 def witnessG : Graph :=
@@ -175,10 +252,10 @@ def witnessRethrow : Block :=
     (.cons [4] (.cons (.echo 1) .nil) (.cons [1] (.cons (.echo 2) .nil) .nil)) false .nil) .nil
 
 theorem C05_refines_pinned_counterexample :
-    (run witnessG Cfg.pinned witnessRethrow).2 =
-      [.enterTry 2, .enterTry 1, .caught 1 0 (.obj 4 1), .caught 2 1 .internal, .echo 2] ∧
-    (run witnessG Cfg.fixed witnessRethrow).2 =
-      [.enterTry 2, .enterTry 1, .caught 1 0 (.obj 4 1), .caught 2 0 (.obj 4 1), .echo 1] := by
+    (run witnessG Cfg.pinned (.ofBlock witnessRethrow)).2 =
+      [.enterTry 0 2, .enterTry 0 1, .caught 0 1 0 (.obj 4 1), .caught 0 2 1 .internal, .echo 0 2] ∧
+    (run witnessG Cfg.fixed (.ofBlock witnessRethrow)).2 =
+      [.enterTry 0 2, .enterTry 0 1, .caught 0 1 0 (.obj 4 1), .caught 0 2 0 (.obj 4 1), .echo 0 1] := by
   constructor <;> decide
 
 /-! ## exit status -/
@@ -238,7 +315,7 @@ theorem C05_exit_status_refines (inp : Input)
         runSteps, hv]
 
 /-- an uncaught throwable at the end of `Model.Exc.run` is a failing process -/
-theorem C05_uncaught_run_fails (G : Graph) (cfg : Cfg) (p : Block) (x : Thrown) (steps : List Model.Cli.Step)
+theorem C05_uncaught_run_fails (G : Graph) (cfg : Cfg) (p : Prog) (x : Thrown) (steps : List Model.Cli.Step)
     (h : (run G cfg p).1 = .uncaught x) :
     (Model.Cli.exitOf Model.Cli.Cfg.fixed (.script steps (endOf (run G cfg p).1))).code = 1 := by
   rw [h]; rfl
@@ -273,7 +350,10 @@ the more specific `catch (K4)` comes later and does not run) -/
 def exCatches : Catches :=
   .cons [5] (.cons (.echo 6) .nil) (.cons [10] (.cons (.echo 7) .nil) (.cons [4] (.cons (.echo 8) .nil) .nil))
 
-example : protect (execB exG Cfg.fixed none (.cons (.throw 4 1) .nil) ([] ++ [.enterTry 1])) = (.thr (.obj 4 1), [.enterTry 1]) := by
+/-- an activation of level 0 at top level of a program without functions -/
+def top : Act := actAt exG Cfg.fixed [] 0
+
+example : protect (execB exG Cfg.fixed none top (.cons (.throw 4 1) .nil) ([] ++ [.enterTry 0 1])) = (.thr (.obj 4 1), [.enterTry 0 1]) := by
   decide
 example : FirstMatch exG (.obj 4 1) exCatches 0 1 (.cons (.echo 7) .nil) := by
   refine .later ?_ (.here ?_)
@@ -281,24 +361,53 @@ example : FirstMatch exG (.obj 4 1) exCatches 0 1 (.cons (.echo 7) .nil) := by
       have := (clauseMatches_iff exG exG_noCycle exG_rooted [5] (.obj 4 1)).2 h
       exact absurd this (by decide)
   · exact (clauseMatches_iff exG exG_noCycle exG_rooted [10] (.obj 4 1)).1 (by decide)
-example : (run exG Cfg.fixed (.cons (.try_ 1 (.cons (.throw 4 1) .nil) exCatches true (.cons (.echo 9) .nil)) .nil)) =
-    (.ok, [.enterTry 1, .caught 1 1 (.obj 4 1), .echo 7, .enterFinally 1, .echo 9]) := by decide
+example : (run exG Cfg.fixed (.ofBlock (.cons (.try_ 1 (.cons (.throw 4 1) .nil) exCatches true (.cons (.echo 9) .nil)) .nil))) =
+    (.ok, [.enterTry 0 1, .caught 0 1 1 (.obj 4 1), .echo 0 7, .enterFinally 0 1, .echo 0 9]) := by decide
 -- no clause: the exception is still pending after the finally block
-example : (run exG Cfg.fixed (.cons (.try_ 1 (.cons (.throw 6 2) .nil) exCatches true (.cons (.echo 9) .nil)) .nil)) =
-    (.uncaught (.obj 6 2), [.enterTry 1, .enterFinally 1, .echo 9]) := by decide
+example : (run exG Cfg.fixed (.ofBlock (.cons (.try_ 1 (.cons (.throw 6 2) .nil) exCatches true (.cons (.echo 9) .nil)) .nil))) =
+    (.uncaught (.obj 6 2), [.enterTry 0 1, .enterFinally 0 1, .echo 0 9]) := by decide
 -- finally once: a loop runs try 1 three times, leaving by continue, by break … ; goodB holds
 def exLoop : Block :=
   .cons (.loop 3 (.cons (.try_ 1 (.cons .cont .nil) .nil true (.cons (.echo 1) .nil)) .nil)) .nil
-example : goodB 1 exLoop = true := by decide
-example : proj 1 (run exG Cfg.fixed exLoop).2 =
-    [.enterTry 1, .enterFinally 1, .enterTry 1, .enterFinally 1, .enterTry 1, .enterFinally 1] := by decide
+example : goodP 1 (.ofBlock exLoop) = true := by decide
+example : proj 0 1 (run exG Cfg.fixed (.ofBlock exLoop)).2 =
+    [.enterTry 0 1, .enterFinally 0 1, .enterTry 0 1, .enterFinally 0 1, .enterTry 0 1, .enterFinally 0 1] := by decide
 example : mentionsB 1 (.cons .cont .nil) = false ∧ mentionsC 1 .nil = false := by decide
 -- refinement: the closure-based rule set of the driver agrees with the model on the example
-example : run exG Cfg.fixed (.cons (.try_ 1 (.cons (.throw 4 1) .nil) exCatches true (.cons (.echo 9) .nil)) .nil) =
-    Spec.Exc.run (Spec.Exc.rulesOf exG) (.cons (.try_ 1 (.cons (.throw 4 1) .nil) exCatches true (.cons (.echo 9) .nil)) .nil) := by
+example : run exG Cfg.fixed (.ofBlock (.cons (.try_ 1 (.cons (.throw 4 1) .nil) exCatches true (.cons (.echo 9) .nil)) .nil)) =
+    Spec.Exc.run (Spec.Exc.rulesOf exG) (.ofBlock (.cons (.try_ 1 (.cons (.throw 4 1) .nil) exCatches true (.cons (.echo 9) .nil)) .nil)) := by
   decide
 -- override: pending exception, finally returns
-example : finallyPhase 1 true (fun t => (.ret 5, t)) (.thr .internal, []) = (.ret 5, [.enterFinally 1]) := by decide
+example : finallyPhase 0 1 true (fun t => (.ret 5, t)) (.thr .internal, []) = (.ret 5, [.enterFinally 0 1]) := by decide
+
+/-! ### re-entrant programs -/
+
+/-- `$n = 2; walk($n - 1)`: the finally block of `walk(1)` runs `walk(0)` — the same `try`, the same `return` — while
+`1007` is pending; the outer call still returns `1007` (and the events of try 1 nest across levels, alternate within
+each level) -/
+def exWalk : Prog := ⟨[walk 7], .cons (.callf 0) .nil, 2⟩
+example : run exG Cfg.fixed exWalk =
+    (.ok, [.enterTry 1 1, .enterFinally 1 1, .enterTry 0 1, .enterFinally 0 1, .result (some 7), .result (some 1007)]) := by
+  decide
+example : goodP 1 exWalk = true := by decide
+example : proj 1 1 (run exG Cfg.fixed exWalk).2 = [.enterTry 1 1, .enterFinally 1 1] ∧
+    proj 0 1 (run exG Cfg.fixed exWalk).2 = [.enterTry 0 1, .enterFinally 0 1] := by decide
+-- hypotheses of `C05_pending_outcome_kept` on the outer activation of `exWalk`: `ret 1007` pending, finally normal
+example : catchPhase (fun r => protect (tryValue (fun x t => execC exG Cfg.fixed (actAt exG Cfg.fixed [walk 7] 1) 1 0 x .nil t) r))
+      (protect (execB exG Cfg.fixed none (actAt exG Cfg.fixed [walk 7] 1) (.cons (.ret 7) .nil) ([] ++ [.enterTry 1 1]))) =
+    (.ret 1007, [.enterTry 1 1]) := by decide
+example : protect (execB exG Cfg.fixed none (actAt exG Cfg.fixed [walk 7] 1) (.cons (.callf 0) .nil)
+      ([.enterTry 1 1] ++ [.enterFinally 1 1])) =
+    (.normal, [.enterTry 1 1, .enterFinally 1 1, .enterTry 0 1, .enterFinally 0 1, .result (some 7)]) := by decide
+/-- mutual recursion with the pending control an exception caught by the *caller's* handler two levels up:
+`g0: try { throw K4 } finally { g1($n-1) }`, `g1: try { g0($n-1) } catch (K3 $e) { echo 5 }` -/
+def exMutual : Prog :=
+  ⟨[.cons (.try_ 1 (.cons (.throw 4 3) .nil) .nil true (.cons (.callf 1) .nil)) .nil,
+    .cons (.try_ 2 (.cons (.callf 0) .nil) (.cons [3] (.cons (.echo 5) .nil) .nil) false .nil) .nil],
+   .cons (.try_ 3 (.cons (.callf 0) .nil) (.cons [0] (.cons (.echo 6) .nil) .nil) false .nil) .nil, 3⟩
+example : run exG Cfg.fixed exMutual =
+    (.ok, [.enterTry 3 3, .enterTry 2 1, .enterFinally 2 1, .enterTry 1 2, .enterTry 0 1, .enterFinally 0 1,
+           .caught 1 2 0 (.obj 4 3), .echo 1 5, .result none, .caught 3 3 0 (.obj 4 2003), .echo 3 6]) := by decide
 -- exit status: hypotheses of C05_exit_status / _refines
 example : Spec.Cli.Direct [.echo 1, .echo 2] := by
   intro s hs; simp at hs; rcases hs with rfl | rfl <;> exact ⟨_, rfl⟩
